@@ -56,6 +56,55 @@ class PDict(HeapVal):
         self.frozen = frozen
 
 
+class _LiveEntry(list):
+    """[key, value] of an instance's __dict__ view: assigning the value writes through to the instance"""
+    __slots__ = ("owner",)
+
+    def __setitem__(self, i, val):
+        list.__setitem__(self, i, val)
+        if i == 1:
+            self.owner.fields[self[0]] = val
+
+
+class _LiveEntries(list):
+    """the entry list of an instance's __dict__ view (``obj.__dict__`` / ``vars(obj)``): insertions and
+    deletions write through to the instance's attributes.  (Changes made to the instance AFTER the view was
+    taken are not reflected: a fresh view is made by every ``__dict__`` access.)"""
+    __slots__ = ("owner",)
+
+    def _wrap(self, e):
+        if not isinstance(e[0], str):
+            raise Unsupported("non-string key written to an instance __dict__")
+        le = _LiveEntry(e)
+        le.owner = self.owner
+        return le
+
+    def append(self, e):
+        list.append(self, self._wrap(e))
+        self.owner.fields[e[0]] = e[1]
+
+    def pop(self, i=-1):
+        e = list.pop(self, i)
+        self.owner.fields.pop(e[0], None)
+        return e
+
+    def __delitem__(self, i):
+        gone = self[i] if isinstance(i, slice) else [self[i]]
+        for e in gone:
+            self.owner.fields.pop(e[0], None)
+        list.__delitem__(self, i)
+
+
+def live_dict_view(interp, obj):
+    d = PDict(interp)
+    ents = _LiveEntries()
+    ents.owner = obj
+    for k, x in obj.fields.items():
+        list.append(ents, ents._wrap([k, x]))
+    d.entries = ents
+    return d
+
+
 class PSet(HeapVal):
     __slots__ = ("elems",)
 
@@ -667,11 +716,15 @@ class Interp:
         if isinstance(v, PList) or isinstance(v, PDict) or isinstance(v, PSet):
             self.raise_("TypeError", "unhashable type")
         if isinstance(v, Obj):
+            if self._cls_unhashable(v.cls):
+                self.raise_("TypeError", "unhashable type")
             f = self.class_lookup(v.cls, "__hash__")
             if isinstance(f, FuncObj):
                 return self.call(f, [v], {})
             return self.id_of(v) >> 4
         if isinstance(v, HeapVal):
+            if getattr(v, "unhashable", False):
+                self.raise_("TypeError", "unhashable type")
             return self.id_of(v) >> 4
         raise Unsupported(f"hash({v!r})")
 
@@ -806,6 +859,7 @@ class Interp:
         return PList(self, l.elems, l.sym_n, frozen)
 
     def set_add(self, s, x):
+        self.check_hashable(x)
         c = False
         for e in s.elems:
             c = self.or_(c, self.equal(e, x))
@@ -813,8 +867,35 @@ class Interp:
             s.elems.append(x)
 
     # ------------------------------------------------------------------ dict (assoc list)
+    def check_hashable(self, v):
+        """TypeError for keys CPython cannot hash (no hash value is computed: PDict / PSet compare by equality)"""
+        if isinstance(v, SymRef):
+            if not any(getattr(c, "unhashable", False) or isinstance(c, Obj) and self._cls_unhashable(c.cls)
+                       for c in v.cands if c is not None):
+                return
+            v = self.resolve(v)
+        if isinstance(v, PList) and v.frozen:
+            if v.sym_n is None:
+                for e in v.elems:
+                    self.check_hashable(e)
+            return
+        if isinstance(v, (PList, PDict, PSet)):
+            self.raise_("TypeError", "unhashable type")
+        if isinstance(v, Obj) and self._cls_unhashable(v.cls) or getattr(v, "unhashable", False):
+            self.raise_("TypeError", "unhashable type")
+
+    def _cls_unhashable(self, cls):
+        # CPython: a class that defines __eq__ without __hash__ gets __hash__ = None
+        for c in cls.mro:
+            if "__hash__" in c.ns:
+                return c.ns["__hash__"] is None
+            if "__eq__" in c.ns:
+                return True
+        return False
+
     def dict_find(self, d, k):
         """returns index of matching entry or None (forks on symbolic key equality)"""
+        self.check_hashable(k)
         for i, (kk, _) in enumerate(d.entries):
             if self.truth(self.equal(kk, k)):
                 return i
@@ -901,7 +982,7 @@ class Interp:
             if name == "__class__":
                 return v.cls
             if name == "__dict__":
-                return PDict(self, [[k, x] for k, x in v.fields.items()])
+                return live_dict_view(self, v)
             ca = self.class_lookup(v.cls, name)
             if isinstance(ca, PropertyObj):
                 return self.call(ca.fget, [v], {})
@@ -1004,6 +1085,17 @@ class Interp:
             if name not in v.fields:
                 self.raise_("AttributeError", name)
             del v.fields[name]
+            return
+        if isinstance(v, ClassObj):
+            # only the class's own namespace (no MRO walk), as type.__delattr__ does
+            if name not in v.ns:
+                self.raise_("AttributeError", name)
+            del v.ns[name]
+            return
+        if isinstance(v, PModule):
+            if name not in v.globs:
+                self.raise_("AttributeError", name)
+            del v.globs[name]
             return
         raise Unsupported("delattr")
 
@@ -1374,7 +1466,14 @@ class Interp:
     def type_call(self, cls, args, kwargs):
         if getattr(cls, "native_ctor", None):
             return cls.native_ctor(self, args, kwargs)
-        obj = Obj(self, cls)
+        new = self.class_lookup(cls, "__new__")
+        if isinstance(new, StaticMethodObj) and isinstance(new.func, FuncObj) or isinstance(new, FuncObj):
+            # a user-defined __new__ (implicitly static)
+            obj = self.call(new.func if isinstance(new, StaticMethodObj) else new, [cls] + list(args), kwargs)
+            if not (isinstance(obj, Obj) and cls in obj.cls.mro):
+                return obj
+        else:
+            obj = Obj(self, cls)
         init = self.class_lookup(cls, "__init__")
         if init is not None:
             self.call(init, [obj] + list(args), kwargs)
@@ -2158,6 +2257,19 @@ class Interp:
             ta, tb = self.int_term(a), self.int_term(b)
             t = {ast.Lt: ta < tb, ast.LtE: ta <= tb, ast.Gt: ta > tb, ast.GtE: ta >= tb}[type(op)]
             return self.wrapb(t)
+        if isinstance(a, Obj) or isinstance(b, Obj):
+            # rich comparison of instances: the left operand's method, else the right operand's reflected one
+            name, refl = {ast.Lt: ("__lt__", "__gt__"), ast.LtE: ("__le__", "__ge__"),
+                          ast.Gt: ("__gt__", "__lt__"), ast.GtE: ("__ge__", "__le__")}[type(op)]
+            if isinstance(a, Obj):
+                f = self.class_lookup(a.cls, name)
+                if isinstance(f, FuncObj):
+                    return self.call(f, [a, b], {})
+            if isinstance(b, Obj):
+                f = self.class_lookup(b.cls, refl)
+                if isinstance(f, FuncObj):
+                    return self.call(f, [b, a], {})
+            self.raise_("TypeError", "comparison not supported between these instances")
         import operator
         return {ast.Lt: operator.lt, ast.LtE: operator.le, ast.Gt: operator.gt, ast.GtE: operator.ge}[type(op)](a, b)
 
@@ -2298,6 +2410,22 @@ class Interp:
         obj = ClassObj(self, "object", [], {})
         obj.ns["__init__"] = NativeFunc(lambda it, a, k: None, "object.__init__")
         obj.ns["__init__"].is_method = True
+
+        def object_new(it, a, k):
+            if not a or not isinstance(a[0], ClassObj):
+                I.raise_("TypeError", "object.__new__(X): X is not a type object")
+            if getattr(a[0], "native_ctor", None):
+                raise Unsupported("object.__new__ of a natively modelled class")
+            return Obj(I, a[0])
+        obj.ns["__new__"] = StaticMethodObj(NativeFunc(object_new, "object.__new__"))
+
+        def object_getstate(it, a, k):
+            # CPython >= 3.11: the instance dictionary itself for a plain instance (slots: not modelled)
+            if any("__slots__" in c.ns for c in a[0].cls.mro):
+                raise Unsupported("object.__getstate__ with __slots__")
+            return live_dict_view(I, a[0])
+        obj.ns["__getstate__"] = NativeFunc(object_getstate, "object.__getstate__")
+        obj.ns["__getstate__"].is_method = True
         B["object"] = obj
         typ = ClassObj(self, "type", [obj], {})
 
@@ -2680,7 +2808,9 @@ class Interp:
         @nf("vars")
         def _vars(it, a, k):
             v = I.resolve(a[0])
-            return PDict(I, [[kk, x] for kk, x in v.fields.items()])
+            if not isinstance(v, Obj):
+                raise Unsupported("vars() of a non-instance")
+            return live_dict_view(I, v)
 
         @nf("hex")
         def _hex(it, a, k):
